@@ -412,8 +412,19 @@ fn g_payload() -> BoxedStrategy<EciPayload> {
         }
         (Some(eci), payload, b256)
     });
-    (vec(seg, 1..=4), any::<bool>(), any::<u8>())
-        .prop_map(|(mut segs, drop_first, m)| {
+    (vec(seg, 1..=4), any::<bool>(), any::<u8>(), any::<u16>())
+        .prop_map(|(mut segs, drop_first, m, cut)| {
+            // sometimes one segment is cut into two at an arbitrary byte (both halves keep the designator):
+            // a multi-byte character split between two sections is malformed in each of them
+            if m % 5 == 0 && segs.len() < 4 {
+                let k = pick(cut, segs.len());
+                let (e, p, b) = segs[k].clone();
+                if p.len() >= 2 {
+                    let at = 1 + pick(cut.rotate_left(7), p.len() - 1);
+                    segs[k] = (e, p[..at].to_vec(), b);
+                    segs.insert(k + 1, (e, p[at..].to_vec(), !b));
+                }
+            }
             if drop_first {
                 // first segment without designator: default interpretation (Latin-1)
                 segs[0].0 = None;
